@@ -192,6 +192,17 @@ class Extractor:
                     elif name == "<T as std::convert::TryInto<U>>::try_into":
                         mc = [m for m in c.get("may_call", []) if m in self.prog.bodies]
                         res = ("call", mc[0], args, name) if len(mc) == 1 else ("call", c["id"], args, name)
+                    elif name == "std::result::Result::<T, E>::map" and len(args) == 2 and self._map_apply(args[1], ("okpayload", args[0])) is not None \
+                            and t["target"] is not None and not t["dest"]["p"]:
+                        # `x.map(Variant)` / `x.map(|v| Variant(.., v))` is `match x { Ok(v) => Ok(Variant(v)), Err(e) => Err(e) }`
+                        effects.append((c["def"], args))
+                        env_ok = dict(env)
+                        env_ok[t["dest"]["l"]] = ("variant", "std::result::Result", "Ok", [self._map_apply(args[1], ("okpayload", args[0]))], ("0",))
+                        self.walk(t["target"], env_ok, conds + [("ok", args[0])], onpath, effects)
+                        env_err = dict(env)
+                        env_err[t["dest"]["l"]] = ("variant", "std::result::Result", "Err", [("opaque", "propagated")], ("0",))
+                        self.walk(t["target"], env_err, conds + [("err", args[0])], onpath, effects)
+                        return
                     else:
                         res = ("call", c["id"], args, name)
                 if c is not None:
@@ -229,6 +240,41 @@ class Extractor:
                 self.walk(t["otherwise"], env, conds + [("notin", d, tuple(seen_vals))], onpath, effects)
                 return
             raise NotATable("terminator %s in %s" % (k, b.qname))
+
+    def _map_apply(self, f, payload):
+        """the term `f(payload)` when f is the constructor of a tuple variant passed by name, or a closure whose body is a
+        single unconditional leaf; None otherwise (the call then stays an opaque `map`)"""
+        if f[0] == "fn":
+            parts = strip_generics(f[2]).split("::")
+            if len(parts) >= 2:
+                vn, an = parts[-1], parts[-2]
+                for name, a in self.prog.adts.items():
+                    if name.split("::")[-1] == an and any(v["name"] == vn for v in a["variants"]):
+                        return ("variant", name, vn, [payload], ("0",))
+            return None
+        if f[0] == "closure" and f[1] in self.prog.bodies:
+            cb = self.prog.bodies[f[1]]
+            try:
+                leaves = Extractor(self.prog, cb).run()
+            except NotATable:
+                return None
+            if len(leaves) != 1 or leaves[0][0]:
+                return None
+            caps = f[2]
+
+            def sub(x):
+                if not isinstance(x, tuple):
+                    return x
+                if x == ("arg", 2):
+                    return payload
+                if x and x[0] == "field" and x[1] == ("arg", 1) and isinstance(x[2], int) and x[2] < len(caps):
+                    c0 = caps[x[2]]
+                    return c0[1] if c0[0] == "ref" else c0
+                if x == ("arg", 1):
+                    return ("opaque", "closure environment")
+                return tuple(sub(y) if isinstance(y, tuple) else ([sub(z) for z in y] if isinstance(y, list) else y) for y in x)
+            return sub(leaves[0][1])
+        return None
 
     def _bind_continue(self, env, t, inner):
         # the switch operand was `discriminant(_b)` with _b = branch(x): reads of (_b as Continue).0 give okpayload(x)
